@@ -3,8 +3,8 @@
    extracted inductives.  No Extract Constant of ours. *)
 From Coq Require Extraction.
 From Coq Require Import ExtrOcamlBasic.
-From PM Require Import Model.EntryBase Model.EntryStr.
+From PM Require Import Model.EntryBase Model.EntryStr Model.EntryOps.
 
-Definition entries : list (str * (pyval -> pyval)) := entries_str.
+Definition entries : list (str * (pyval -> pyval)) := entries_str ++ entries_ops.
 
 Extraction "../runner/model.ml" entries.
